@@ -4,6 +4,7 @@ package main
 // invariants and calls replaced by contracts.
 
 import (
+	"sync"
 	"fmt"
 	"go/constant"
 	"go/token"
@@ -263,6 +264,9 @@ func immutableComp(name string) bool {
 func (s *State) havocAll() {
 	s.bumpTop()
 	s.epoch = freshEpoch()
+	hvTopMu.Lock()
+	epochTop[s.epoch] = s.top
+	hvTopMu.Unlock()
 	s.heap = map[string]*Term{}
 	s.hv = nil
 }
@@ -882,6 +886,8 @@ func (r *Run) enterLoopHeader(st *State, fr *Frame, h *ssa.BasicBlock, prev *ssa
 			r.oblige(st, fmt.Sprintf("loop%d.inv%d.entry", k, c.Ord), c.Props, "", g)
 		}
 	}
+	// earlier iterations may have allocated: values of an arbitrary iteration may refer to those objects
+	st.bumpTop()
 	// the header's phis take the value of an arbitrary iteration
 	phiNow := map[string]*Val{}
 	for _, phi := range phis {
@@ -918,7 +924,6 @@ func (r *Run) enterLoopHeader(st *State, fr *Frame, h *ssa.BasicBlock, prev *ssa
 		}
 	}
 	// havoc heap written in the loop
-	st.bumpTop()
 	r.havocLoopHeap(st, fr, h)
 	env := r.specEnv(st, fr, "inv").with(phiNow)
 	env.loopHdr = h
@@ -1036,7 +1041,11 @@ func (r *Run) havocPrefix(st *State, c string) {
 			if immutableComp(name) {
 				continue
 			}
-			st.heap[name] = Var(freshName("Hv!"+name), t.Sort)
+			hvn := freshName("Hv!" + name)
+			st.heap[name] = Var(hvn, t.Sort)
+			hvTopMu.Lock()
+			hvTop[hvn] = hvInfo{comp: name, top: st.top}
+			hvTopMu.Unlock()
 		}
 	}
 	// components not read so far get a fresh epoch symbol on their first read
@@ -1044,7 +1053,22 @@ func (r *Run) havocPrefix(st *State, c string) {
 		st.hv = map[string]int{}
 	}
 	st.hv[c] = freshEpoch()
+	hvTopMu.Lock()
+	epochTop[st.hv[c]] = st.top
+	hvTopMu.Unlock()
 }
+
+// allocation watermark at the time a havocked heap symbol was introduced (for the heap-closure axioms)
+type hvInfo struct {
+	comp string
+	top  *Term
+}
+
+var (
+	hvTop    = map[string]hvInfo{}
+	epochTop = map[int]*Term{}
+	hvTopMu  sync.Mutex
+)
 
 // writtenComps statically over-approximates the heap components written by a set of blocks.
 func (r *Run) writtenComps(fr *Frame, blocks map[*ssa.BasicBlock]bool, depth int) (map[string]bool, bool) {
@@ -1158,7 +1182,7 @@ func (r *Run) calleeWrites(fr *Frame, call ssa.CallInstruction, depth int) (map[
 	if callee == nil {
 		if com.IsInvoke() {
 			if spec := r.v.methodSpec(com); spec != nil {
-				return r.specWrites(spec)
+				return r.specWrites(spec, nil, com.Signature(), fr.te)
 			}
 			return nil, true
 		}
@@ -1172,7 +1196,7 @@ func (r *Run) calleeWrites(fr *Frame, call ssa.CallInstruction, depth int) (map[
 	}
 	spec, _ := r.v.specFor(callee)
 	if spec != nil && !spec.Has("inline") {
-		return r.specWrites(spec)
+		return r.specWrites(spec, callee, callee.Signature, fr.te)
 	}
 	if callee.Blocks == nil || depth > 3 {
 		return nil, true
@@ -1188,7 +1212,65 @@ func (r *Run) calleeWrites(fr *Frame, call ssa.CallInstruction, depth int) (map[
 	return r.writtenComps(sub, blocks, depth+1)
 }
 
-func (r *Run) specWrites(spec *FuncSpec) (map[string]bool, bool) {
+func (r *Run) specWrites(spec *FuncSpec, callee *ssa.Function, sig *types.Signature, te TypeEnv) (map[string]bool, bool) {
+	comps := map[string]bool{}
+	// "set LHS := E" clauses are writes as well
+	for _, c := range spec.ClausesOf("set") {
+		lhs := c.Lhs
+		if lhs == nil {
+			return nil, true
+		}
+		switch lhs.Kind {
+		case "ident":
+			if strings.HasPrefix(lhs.Name, "$") {
+				comps["g:"+lhs.Name] = true
+				continue
+			}
+			return nil, true
+		case "sel":
+			if lhs.Args[0].Kind != "ident" || sig == nil {
+				return nil, true
+			}
+			var ot types.Type
+			name := lhs.Args[0].Name
+			if callee != nil {
+				for _, p := range callee.Params {
+					if p.Name() == name {
+						ot = p.Type()
+					}
+				}
+			}
+			for i := 0; ot == nil && i < sig.Params().Len(); i++ {
+				if sig.Params().At(i).Name() == name {
+					ot = sig.Params().At(i).Type()
+				}
+			}
+			if ot == nil && sig.Results().Len() == 1 && (name == "result" || name == sig.Results().At(0).Name() || (len(spec.Returns) == 1 && spec.Returns[0] == name)) {
+				ot = sig.Results().At(0).Type()
+			}
+			if ot == nil {
+				return nil, true
+			}
+			pt := derefType(te.apply(ot))
+			if pt == nil {
+				return nil, true
+			}
+			comps[typeName(te.apply(pt))+"."+lhs.Name] = true
+		default:
+			return nil, true
+		}
+	}
+	mc, all := r.specModifies(spec)
+	if all {
+		return nil, true
+	}
+	for c := range mc {
+		comps[c] = true
+	}
+	return comps, false
+}
+
+func (r *Run) specModifies(spec *FuncSpec) (map[string]bool, bool) {
 	comps := map[string]bool{}
 	for _, c := range spec.Clauses {
 		if c.Kind == "modifies" {
